@@ -45,9 +45,15 @@ func stepLimitFor(n int) int64 { return 5_000_000 + 20_000*int64(n) }
 
 var stepLimit int64 = 400_000_000
 
+// budget for declared-size allocations (elements requested through make/Grow) during one call: the largest size a
+// 24-bit length field can declare, three times over, plus a generous linear term
+func allocLimitFor(n int) int64 { return 48<<20 + 256*int64(n) }
+
 type outcome struct {
 	panicked bool
 	stalled  bool
+	alloc    int64 // >0: a declared-size allocation request took the running total past the budget (value = that total)
+	allocReq int64
 	site     string
 	msg      string
 	ticks    int64
@@ -87,6 +93,8 @@ func (e *engine) try(t *target, b []byte, note string) outcome {
 	c.Case("", nil)
 	if o.panicked {
 		c.Violation("panic/"+t.name+"/"+o.site, fmt.Sprintf("decoder %s panicked in %s: %s; input (%d bytes, %s): %s", t.name, o.site, o.msg, len(b), note, hl.Hex(b)), c07case{Target: t.name, Hex: fullHex(b), Note: note})
+	} else if o.alloc > 0 {
+		c.Violation("alloc-declared-size/"+t.name, fmt.Sprintf("decoder %s sized an allocation from the input: a request for %d elements took the declared-size allocations of this call to %d (budget %d = 48 MiB + 256 per input byte) on a %d-byte input (%s): %s", t.name, o.allocReq, o.alloc, allocLimitFor(len(b)), len(b), note, hl.Hex(b)), c07case{Target: t.name, Hex: fullHex(b), Note: note})
 	} else if o.stalled {
 		e.stalls[t.name]++
 		c.Violation("stall/"+t.name, fmt.Sprintf("decoder %s exceeded the step horizon of %d instrumented steps on a %d-byte input (%s): %s", t.name, stepLimit, len(b), note, hl.Hex(b)), c07case{Target: t.name, Hex: fullHex(b), Note: note})
@@ -99,12 +107,17 @@ func runOneWithSite(t *target, b []byte) (o outcome) {
 	vstep.Reset()
 	stepLimit = stepLimitFor(len(b))
 	vstep.Limit = stepLimit
+	vstep.AllocLimit = allocLimitFor(len(b))
 	p, msg, st := false, "", ""
 	func() {
 		defer func() {
 			if r := recover(); r != nil {
 				if _, ok := r.(vstep.Exceeded); ok {
 					o.stalled = true
+					return
+				}
+				if x, ok := r.(vstep.ExceededAlloc); ok {
+					o.alloc, o.allocReq = x.N, x.Request
 					return
 				}
 				p, msg = true, fmt.Sprint(r)
@@ -115,6 +128,7 @@ func runOneWithSite(t *target, b []byte) (o outcome) {
 	}()
 	o.ticks = vstep.Count()
 	vstep.Limit = 0
+	vstep.AllocLimit = 0
 	if p {
 		o.panicked, o.msg, o.site = true, msg, hl.PanicSite(st)
 	}
@@ -312,7 +326,7 @@ func enumHelpers(c *hl.Ctx) {
 }
 
 func run(c *hl.Ctx) {
-	c.Rule("per decoder entry point: every byte string of length <= 2 (thorough 3; cheap decoders); for every seed (valid encodings produced by the reference models and the library's own encoders): every truncation prefix, every single-position substitution by {00,01,7f,80,ff} and all 256 values in the first 12 positions; pumped families 256 B .. 64 KiB with the cost measured in instrumented steps (function entries, loop iterations, weighted bytes/strings/copy calls; deterministic); every value of every enum helper via reflection. Violation = recovered panic, step horizon exceeded, real-time watchdog (120 s), or step count growing faster than linearly. Non-trivial = distinct (decoder, input) evaluated.")
+	c.Rule("per decoder entry point: every byte string of length <= 2 (thorough 3; cheap decoders); for every seed (valid encodings produced by the reference models and the library's own encoders): every truncation prefix, every single-position substitution by {00,01,7f,80,ff} and all 256 values in the first 12 positions; pumped families 256 B .. 64 KiB with the cost measured in instrumented steps (function entries, loop iterations, weighted bytes/strings/copy calls; deterministic); every value of every enum helper via reflection. Violation = recovered panic, step horizon exceeded, real-time watchdog (120 s), step count growing faster than linearly, or declared-size allocations (every make(T, n) / Grow(n) in the instrumented packages is accounted before it happens) above 48 MiB + 256 elements per input byte in one call. Non-trivial = distinct (decoder, input) evaluated.")
 	c.Assume("time inside the Go standard library (asn1, flate, big, json) is not counted in steps", "the websocket reader's deliberate panic after 1000 reads of a failed connection is API-misuse signalling and not reachable by a harness that stops at the first error", "inputs above 64 KiB and coverage-guided/random inputs are replaced by the exhaustive families named in the rule")
 	c.StartWatchdog(120 * time.Second)
 	e := &engine{c: c}
